@@ -26,8 +26,10 @@ type instrStats struct {
 type instrOpts struct {
 	exclude     map[string]bool
 	extra       []*regexp.Regexp
-	afterUnlock bool // scheduling point after every explicit Unlock()/RUnlock() statement
-	discipline  bool // lock-discipline bookkeeping: Acquired/Released around lock calls, Write before writes to receiver state
+	afterUnlock bool            // scheduling point after every explicit Unlock()/RUnlock() statement
+	discipline  bool            // lock-discipline bookkeeping: Acquired/Released around lock calls, Write before writes to receiver state
+	splitRMW    bool            // writes to receiver state become scheduling points when no exclusive lock of that receiver is held; read-modify-write statements are split between the read and the write
+	ownLocks    map[string]bool // splitRMW: "<dir>.<type>" -> methods of the type lock a lock that is part of the receiver
 }
 
 func instrumentFile(path, rel string, src []byte, o instrOpts, st *instrStats) ([]byte, error) {
@@ -39,13 +41,17 @@ func instrumentFile(path, rel string, src []byte, o instrOpts, st *instrStats) (
 	type ins struct {
 		off  int
 		text string
+		del  int // bytes of src dropped after the inserted text
 	}
 	var inserts []ins
 	base := filepath.Base(rel)
-	text := func(n ast.Node) string { return string(src[fset.Position(n.Pos()).Offset:fset.Position(n.End()).Offset]) }
+	text := func(n ast.Node) string {
+		return string(src[fset.Position(n.Pos()).Offset:fset.Position(n.End()).Offset])
+	}
 	// receiver name of the method a statement belongs to (closures inherit it)
 	recvOf := map[ast.Stmt]string{}
-	if o.discipline {
+	recvType := map[ast.Stmt]string{}
+	if o.discipline || o.splitRMW {
 		for _, d := range f.Decls {
 			fd, ok := d.(*ast.FuncDecl)
 			if !ok || fd.Recv == nil || fd.Body == nil || len(fd.Recv.List) == 0 || len(fd.Recv.List[0].Names) == 0 {
@@ -55,9 +61,13 @@ func instrumentFile(path, rel string, src []byte, o instrOpts, st *instrStats) (
 			if rn == "_" {
 				continue
 			}
+			rt, ptr := recvTypeName(fd)
 			ast.Inspect(fd.Body, func(n ast.Node) bool {
 				if s, ok := n.(ast.Stmt); ok {
 					recvOf[s] = rn
+					if ptr {
+						recvType[s] = rt
+					}
 				}
 				return true
 			})
@@ -114,17 +124,25 @@ func instrumentFile(path, rel string, src []byte, o instrOpts, st *instrStats) (
 						if name == "RLock" {
 							try, un = "TryRLock", "RUnlock"
 						}
-						inserts = append(inserts, ins{pos.Offset, fmt.Sprintf("verifsim.BeforeLock(%q, func() bool { if %s.%s() { %s.%s(); return true }; return false }); ", site, x, try, x, un)})
+						inserts = append(inserts, ins{off: pos.Offset, text: fmt.Sprintf("verifsim.BeforeLock(%q, func() bool { if %s.%s() { %s.%s(); return true }; return false }); ", site, x, try, x, un)})
 						st.Locks++
 						if o.discipline {
-							inserts = append(inserts, ins{endOff, fmt.Sprintf("; verifsim.Acquired(%q, %v)", x, name == "Lock")})
+							if o.splitRMW && plainChain(sel.X) {
+								inserts = append(inserts, ins{off: endOff, text: fmt.Sprintf("; verifsim.AcquiredAt(%q, &(%s), %v)", x, x, name == "Lock")})
+							} else {
+								inserts = append(inserts, ins{off: endOff, text: fmt.Sprintf("; verifsim.Acquired(%q, %v)", x, name == "Lock")})
+							}
 						}
 					case "Unlock", "RUnlock":
 						if o.discipline {
-							inserts = append(inserts, ins{pos.Offset, fmt.Sprintf("verifsim.Released(%q); ", x)})
+							if o.splitRMW && plainChain(sel.X) {
+								inserts = append(inserts, ins{off: pos.Offset, text: fmt.Sprintf("verifsim.ReleasedAt(%q, &(%s)); ", x, x)})
+							} else {
+								inserts = append(inserts, ins{off: pos.Offset, text: fmt.Sprintf("verifsim.Released(%q); ", x)})
+							}
 						}
 						if o.afterUnlock {
-							inserts = append(inserts, ins{endOff, fmt.Sprintf("; verifsim.Yield(%q)", "after-unlock@"+site)})
+							inserts = append(inserts, ins{off: endOff, text: fmt.Sprintf("; verifsim.Yield(%q)", "after-unlock@"+site)})
 							st.Yields++
 						}
 					}
@@ -134,8 +152,12 @@ func instrumentFile(path, rel string, src []byte, o instrOpts, st *instrStats) (
 			if ds, ok := s.(*ast.DeferStmt); ok && o.discipline {
 				if sel, name := lockCall(ds.Call); sel != nil && (name == "Unlock" || name == "RUnlock") {
 					// defer X.Unlock()  ->  defer func() { verifsim.Released("X"); X.Unlock() }()
-					inserts = append(inserts, ins{fset.Position(ds.Call.Pos()).Offset, fmt.Sprintf("func() { verifsim.Released(%q); ", text(sel.X))})
-					inserts = append(inserts, ins{endOff, " }()"})
+					if o.splitRMW && plainChain(sel.X) {
+						inserts = append(inserts, ins{off: fset.Position(ds.Call.Pos()).Offset, text: fmt.Sprintf("func() { verifsim.ReleasedAt(%q, &(%s)); ", text(sel.X), text(sel.X))})
+					} else {
+						inserts = append(inserts, ins{off: fset.Position(ds.Call.Pos()).Offset, text: fmt.Sprintf("func() { verifsim.Released(%q); ", text(sel.X))})
+					}
+					inserts = append(inserts, ins{off: endOff, text: " }()"})
 					continue
 				}
 			}
@@ -157,7 +179,7 @@ func instrumentFile(path, rel string, src []byte, o instrOpts, st *instrStats) (
 				}
 				for _, e := range lhs {
 					if root, chain := rootIdent(e); chain && root == rn {
-						inserts = append(inserts, ins{pos.Offset, fmt.Sprintf("verifsim.Write(%q, %q); ", site, rn)})
+						inserts = append(inserts, ins{off: pos.Offset, text: fmt.Sprintf("verifsim.Write(%q, %q); ", site, rn)})
 						break
 					}
 				}
@@ -170,9 +192,68 @@ func instrumentFile(path, rel string, src []byte, o instrOpts, st *instrStats) (
 					continue
 				}
 				if re.MatchString(text(s)) {
-					inserts = append(inserts, ins{pos.Offset, fmt.Sprintf("verifsim.Yield(%q); ", site)})
+					inserts = append(inserts, ins{off: pos.Offset, text: fmt.Sprintf("verifsim.Yield(%q); ", site)})
 					st.Yields++
 					break
+				}
+			}
+			if rn, rt := recvOf[s], recvType[s]; o.splitRMW && rn != "" && rt != "" {
+				own := o.ownLocks[filepath.Dir(rel)+"."+rt]
+				mid := fmt.Sprintf("verifsim.MidWrite(%q, %s, %v)", site, rn, own)
+				isRecvState := func(e ast.Expr) bool {
+					root, chain := rootIdent(e)
+					return chain && root == rn && !hasCall(e)
+				}
+				switch w := s.(type) {
+				case *ast.AssignStmt:
+					if w.Tok == token.DEFINE || len(w.Lhs) != 1 || len(w.Rhs) != 1 || !isRecvState(w.Lhs[0]) {
+						// several targets: a plain scheduling point before the statement if one of them is receiver state
+						if w.Tok != token.DEFINE {
+							for _, e := range w.Lhs {
+								if isRecvState(e) {
+									inserts = append(inserts, ins{off: pos.Offset, text: mid + "; "})
+									st.Yields++
+									break
+								}
+							}
+						}
+						break
+					}
+					l, r := text(w.Lhs[0]), text(w.Rhs[0])
+					rhsOff := fset.Position(w.Rhs[0].Pos()).Offset
+					switch {
+					case w.Tok == token.ASSIGN && strings.Contains(squash(r), squash(l)):
+						// X = f(X)  ->  { verifRMW := f(X); MidWrite; X = verifRMW }
+						inserts = append(inserts, ins{off: pos.Offset, text: "{ verifRMW := ", del: rhsOff - pos.Offset})
+						inserts = append(inserts, ins{off: endOff, text: fmt.Sprintf("; %s; %s = verifRMW }", mid, l)})
+						st.Yields++
+					case w.Tok == token.ASSIGN:
+						inserts = append(inserts, ins{off: pos.Offset, text: mid + "; "})
+						st.Yields++
+					default:
+						// X op= e  ->  { verifRMW := X; MidWrite; X = verifRMW op (e) }
+						op := strings.TrimSuffix(w.Tok.String(), "=")
+						inserts = append(inserts, ins{off: pos.Offset, text: fmt.Sprintf("{ verifRMW := %s; %s; %s = verifRMW %s (", l, mid, l, op), del: rhsOff - pos.Offset})
+						inserts = append(inserts, ins{off: endOff, text: ") }"})
+						st.Yields++
+					}
+				case *ast.IncDecStmt:
+					if isRecvState(w.X) {
+						op := "+"
+						if w.Tok == token.DEC {
+							op = "-"
+						}
+						l := text(w.X)
+						inserts = append(inserts, ins{off: pos.Offset, text: fmt.Sprintf("{ verifRMW := %s; %s; %s = verifRMW %s 1 }", l, mid, l, op), del: endOff - pos.Offset})
+						st.Yields++
+					}
+				case *ast.ExprStmt:
+					if call, ok := w.X.(*ast.CallExpr); ok {
+						if id, ok := call.Fun.(*ast.Ident); ok && id.Name == "delete" && len(call.Args) == 2 && func() bool { root, _ := rootIdent(call.Args[0]); return root == rn && !hasCall(call.Args[0]) }() {
+							inserts = append(inserts, ins{off: pos.Offset, text: mid + "; "})
+							st.Yields++
+						}
+					}
 				}
 			}
 		}
@@ -198,20 +279,128 @@ func instrumentFile(path, rel string, src []byte, o instrOpts, st *instrStats) (
 	}
 	// import: same line as the package clause
 	pkgEnd := fset.Position(f.Name.End()).Offset
-	inserts = append(inserts, ins{pkgEnd, "; import " + simImport})
+	inserts = append(inserts, ins{off: pkgEnd, text: "; import " + simImport})
 	sort.SliceStable(inserts, func(i, j int) bool { return inserts[i].off < inserts[j].off })
 	var out strings.Builder
 	last := 0
 	for _, in := range inserts {
-		out.Write(src[last:in.off])
+		if in.off > last {
+			out.Write(src[last:in.off])
+			last = in.off
+		}
 		out.WriteString(in.text)
-		last = in.off
+		if in.del > 0 {
+			// keep the newlines of the dropped text so that line numbers stay put
+			out.WriteString(strings.Repeat("\n", strings.Count(string(src[in.off:in.off+in.del]), "\n")))
+			last = in.off + in.del
+		}
 	}
 	out.Write(src[last:])
 	return []byte(out.String()), nil
 }
 
-func instrumentAll(repo, outDir string, globs []string, excludeSites []string, extraRe []string, afterUnlock, discipline bool, resolve func(string) string, overlay map[string]string) (*instrStats, error) {
+// recvTypeName returns the receiver's type name and whether the receiver is a pointer.
+func recvTypeName(fd *ast.FuncDecl) (string, bool) {
+	t := fd.Recv.List[0].Type
+	ptr := false
+	for {
+		switch x := t.(type) {
+		case *ast.StarExpr:
+			t, ptr = x.X, true
+		case *ast.ParenExpr:
+			t = x.X
+		case *ast.IndexExpr:
+			t = x.X
+		case *ast.IndexListExpr:
+			t = x.X
+		case *ast.Ident:
+			return x.Name, ptr
+		default:
+			return "", false
+		}
+	}
+}
+
+// plainChain: the expression is built from identifiers, selectors, indexing and dereferences only (its address can be taken, evaluating it twice is harmless)
+func plainChain(e ast.Expr) bool {
+	ok := true
+	sel := false
+	ast.Inspect(e, func(n ast.Node) bool {
+		switch n.(type) {
+		case nil, *ast.Ident, *ast.StarExpr, *ast.ParenExpr, *ast.BasicLit:
+		case *ast.SelectorExpr:
+			sel = true
+		case *ast.IndexExpr:
+			ok = false // a map element is not addressable
+		default:
+			ok = false
+		}
+		return ok
+	})
+	return ok && sel
+}
+
+func hasCall(e ast.Expr) bool {
+	found := false
+	ast.Inspect(e, func(n ast.Node) bool {
+		switch n.(type) {
+		case *ast.CallExpr, *ast.FuncLit:
+			found = true
+		}
+		return !found
+	})
+	return found
+}
+
+func squash(s string) string {
+	return strings.Join(strings.Fields(s), "")
+}
+
+// ownLockTypes scans src for methods that lock a lock reached through their receiver (recv.mu.Lock(), recv.Lock()).
+func ownLockTypes(path, rel string, src []byte, out map[string]bool) {
+	fset := token.NewFileSet()
+	f, err := parser.ParseFile(fset, path, src, 0)
+	if err != nil {
+		return
+	}
+	for _, d := range f.Decls {
+		fd, ok := d.(*ast.FuncDecl)
+		if !ok || fd.Recv == nil || fd.Body == nil || len(fd.Recv.List) == 0 || len(fd.Recv.List[0].Names) == 0 {
+			continue
+		}
+		rn := fd.Recv.List[0].Names[0].Name
+		rt, _ := recvTypeName(fd)
+		if rt == "" {
+			continue
+		}
+		ast.Inspect(fd.Body, func(n ast.Node) bool {
+			call, ok := n.(*ast.CallExpr)
+			if !ok || len(call.Args) != 0 {
+				return true
+			}
+			se, ok := call.Fun.(*ast.SelectorExpr)
+			if !ok || (se.Sel.Name != "Lock" && se.Sel.Name != "RLock") {
+				return true
+			}
+			e := se.X
+			for {
+				switch x := e.(type) {
+				case *ast.SelectorExpr:
+					e = x.X
+					continue
+				case *ast.Ident:
+					if x.Name == rn {
+						out[filepath.Dir(rel)+"."+rt] = true
+					}
+				}
+				break
+			}
+			return true
+		})
+	}
+}
+
+func instrumentAll(repo, outDir string, globs []string, excludeSites []string, extraRe []string, afterUnlock, discipline, splitRMW bool, resolve func(string) string, overlay map[string]string) (*instrStats, error) {
 	st := &instrStats{}
 	excl := map[string]bool{}
 	for _, s := range excludeSites {
@@ -224,6 +413,21 @@ func instrumentAll(repo, outDir string, globs []string, excludeSites []string, e
 			return nil, err
 		}
 		res = append(res, re)
+	}
+	own := map[string]bool{}
+	if splitRMW {
+		for _, g := range globs {
+			matches, _ := filepath.Glob(filepath.Join(repo, g))
+			for _, m := range matches {
+				if strings.HasSuffix(m, "_test.go") || !strings.HasSuffix(m, ".go") {
+					continue
+				}
+				rel, _ := filepath.Rel(repo, m)
+				if src, err := os.ReadFile(resolve(m)); err == nil {
+					ownLockTypes(m, rel, src, own)
+				}
+			}
+		}
 	}
 	seen := map[string]bool{}
 	for _, g := range globs {
@@ -245,7 +449,7 @@ func instrumentAll(repo, outDir string, globs []string, excludeSites []string, e
 			if err != nil {
 				return nil, err
 			}
-			out, err := instrumentFile(m, rel, src, instrOpts{exclude: excl, extra: res, afterUnlock: afterUnlock, discipline: discipline}, st)
+			out, err := instrumentFile(m, rel, src, instrOpts{exclude: excl, extra: res, afterUnlock: afterUnlock, discipline: discipline || splitRMW, splitRMW: splitRMW, ownLocks: own}, st)
 			if err != nil {
 				return nil, fmt.Errorf("instrument %s: %v", rel, err)
 			}
